@@ -1,28 +1,46 @@
 #!/usr/bin/env python3
-"""seedcheck.py <patch.diff> <PROP> [<PROP>...]  - apply a seeded change to /repo, run the quick checks, undo it.
+"""seedcheck.py <patch.diff> <PROP> [<PROP>...]
+Apply a seeded change to a scratch worktree of /repo (outside /repo and /verif), run the checks against it
+(VERIF_REPO points the machinery at the scratch tree), remove the worktree.
+With SEED_INPLACE=1 the patch is applied to /repo itself and reverted afterwards (git apply / git checkout -- .).
 Prints one line per property: DETECTED / MISSED / ERROR."""
-import os, subprocess, sys
+import os, subprocess, sys, tempfile, shutil
 VERIF = os.path.dirname(os.path.dirname(os.path.abspath(__file__)))
+
 def main():
     patch = os.path.abspath(sys.argv[1])
     props = sys.argv[2:]
     tier = os.environ.get('SEED_TIER', 'quick')
-    st = subprocess.run(['git', '-C', '/repo', 'status', '--porcelain', '--untracked-files=no'], stdout=subprocess.PIPE, text=True).stdout.strip()
-    if st:
-        print('refusing: /repo has local modifications:\n' + st); return 2
-    r = subprocess.run(['git', '-C', '/repo', 'apply', patch])
-    if r.returncode != 0:
-        print('patch does not apply'); return 2
+    inplace = os.environ.get('SEED_INPLACE') == '1'
+    env = dict(os.environ)
+    if inplace:
+        st = subprocess.run(['git', '-C', '/repo', 'status', '--porcelain', '--untracked-files=no'], stdout=subprocess.PIPE, text=True).stdout.strip()
+        if st:
+            print('refusing: /repo has local modifications:\n' + st); return 2
+        tree = '/repo'
+    else:
+        tree = tempfile.mkdtemp(prefix='seedrepo-', dir='/tmp')
+        os.rmdir(tree)
+        subprocess.run(['git', '-C', '/repo', 'worktree', 'add', '--detach', tree, 'HEAD'], check=True, stdout=subprocess.DEVNULL, stderr=subprocess.DEVNULL)
+        env['VERIF_REPO'] = tree
     try:
+        r = subprocess.run(['git', '-C', tree, 'apply', patch])
+        if r.returncode != 0:
+            print('patch does not apply'); return 2
         for p in props:
-            q = subprocess.run([os.path.join(VERIF, 'check'), p, tier], stdout=subprocess.PIPE, stderr=subprocess.STDOUT, text=True, cwd=VERIF)
+            q = subprocess.run([os.path.join(VERIF, 'check'), p, tier], stdout=subprocess.PIPE, stderr=subprocess.STDOUT, text=True, cwd=VERIF, env=env)
             viol = [l for l in q.stdout.splitlines() if l.startswith('VIOLATION')]
             verdict = 'DETECTED' if (q.returncode == 1 and viol) else ('MISSED' if q.returncode == 0 else 'ERROR rc=%d' % q.returncode)
             print('%s %s: %s %s' % (os.path.basename(os.path.dirname(patch)), p, verdict, viol[:2]))
             if verdict.startswith('ERROR'):
                 print(q.stdout[-1500:])
     finally:
-        subprocess.run(['git', '-C', '/repo', 'checkout', '--', '.'])
+        if inplace:
+            subprocess.run(['git', '-C', '/repo', 'checkout', '--', '.'])
+        else:
+            subprocess.run(['git', '-C', '/repo', 'worktree', 'remove', '--force', tree])
+            shutil.rmtree(tree, ignore_errors=True)
     return 0
+
 if __name__ == '__main__':
     sys.exit(main())
